@@ -1,6 +1,6 @@
 (* C20 -- ReschedulePulseChild: what it changes and which invariants it keeps. *)
 From Coq Require Import List Arith NArith Bool Lia.
-From Muscle Require Import Pulse.PulseModel Pulse.PulseInv.
+From Muscle Require Import Pulse.PulseModel Pulse.PulseInv Pulse.PulseForest.
 Import ListNotations.
 
 (* the first half of ReschedulePulseChild: take c off the list it is on, set _curList *)
@@ -610,4 +610,147 @@ Proof.
       intros _ Hsu. rewrite (wf_root _ _ Hwf2 p Hg) in Hsu. destruct Hsu; discriminate. }
   destruct Hm3 as (m3 & Hk3 & ->). apply K3_all. intro y.
   apply (K3at_upd_other_list m3 p LRecalc); [discriminate|]. now apply K3_all.
+Qed.
+
+(* ------------------------------------------------------------------ generic preservation from "scalars kept, _curList kept or moved to needs-recalc/none" *)
+
+Definition cur_rel (m m' : nmap) : Prop := forall y, cur (m' y) = cur (m y) \/ rn (cur (m' y)).
+
+Lemma K4_mono m m' : same_scalars m m' -> cur_rel m m' -> K4 m -> K4 m'.
+Proof.
+  intros Hsc Hc Hk x. destruct (Hsc x) as (_&Ha&_). rewrite Ha.
+  destruct (Hc x) as [He|[He|He]]; rewrite He; [apply Hk| |]; split; discriminate.
+Qed.
+
+Lemma K6_mono m m' : same_scalars m m' -> K6 m -> K6 m'.
+Proof. intros Hsc Hk x. destruct (Hsc x) as (_&Ha&Hs&_). rewrite Ha, Hs. apply Hk. Qed.
+
+Definition K2at (G : nat -> Prop) (m : nmap) (x : nat) : Prop := ~ G x -> valid (m x) = false -> rn (cur (m x)).
+
+Lemma K2_mono G m m' c :
+  same_scalars m m' -> cur_rel m m' -> rn (cur (m' c)) -> (forall y, y <> c -> K2at G m y) -> K2 G m'.
+Proof.
+  intros Hsc Hc Hcc Hk x HG Hv. destruct (Nat.eq_dec x c) as [->|Hx]; [assumption|].
+  destruct (Hsc x) as (_&_&_&Hvx&_). rewrite Hvx in Hv.
+  destruct (Hc x) as [He|He]; [rewrite He; now apply Hk|assumption].
+Qed.
+
+Lemma acyc_mono m m' : same_scalars m m' -> acyc m -> acyc m'.
+Proof. intros Hsc. apply acyc_ext. intro y. now destruct (Hsc y) as (?&_). Qed.
+
+Lemma dead_inert_mono m m' : same_scalars m m' -> dead_inert m -> dead_inert m'.
+Proof.
+  intros Hsc Hd x Hx. destruct (Hsc x) as (Hp&_&_&_&Ha&_). rewrite Ha in Hx. destruct (Hd x Hx) as [H1 H2].
+  split; [congruence|]. intros y. destruct (Hsc y) as (Hpy&_). rewrite Hpy. apply H2.
+Qed.
+
+Definition listed_except (c : nat) (m : nmap) : Prop :=
+  forall y q, y <> c -> parent (m y) = Some q -> cur (m y) <> LNone.
+
+Lemma listed_is_except m c : listed m -> listed_except c m.
+Proof. intros H y q _. apply H. Qed.
+
+Lemma K1_unlink m p c w : p <> c -> rn w -> K1 m -> K1 (unlink m p c w).
+Proof.
+  intros Hpc Hw Hk x Hx. destruct (Nat.eq_dec x c) as [->|Hxc].
+  - now rewrite unlink_cur_c.
+  - rewrite unlink_cur_o by assumption. apply Hk.
+    intro Hl. apply Hx. change (get_list (unlink m p c w x) LRecalc = []).
+    destruct (get_list (unlink m p c w x) LRecalc) as [|a t] eqn:Hg; [reflexivity|].
+    assert (Hin : In a (get_list (unlink m p c w x) LRecalc)) by (rewrite Hg; left; reflexivity).
+    apply unlink_in in Hin; [|assumption]. destruct Hin as [Hin _].
+    change (In a (lr (m x))) in Hin. rewrite Hl in Hin. destruct Hin.
+Qed.
+
+Lemma cur_rel_unlink m p c w : p <> c -> rn w -> cur_rel m (unlink m p c w).
+Proof.
+  intros Hpc Hw y. destruct (Nat.eq_dec y c) as [->|Hy].
+  - right. now rewrite unlink_cur_c.
+  - left. now apply unlink_cur_o.
+Qed.
+
+Lemma resched_cur_rel f m p c w m' :
+  parent (m c) = Some p -> p <> c -> (forall x, parent (m x) <> Some x) -> rn w ->
+  resched f m p c w = Some m' -> cur_rel m m'.
+Proof.
+  intros Hpar Hpc Hns Hw H y. destruct (resched_cur f m p c w m' Hpar Hpc Hns H) as [Hc Ho].
+  destruct (Nat.eq_dec y c) as [->|Hy]; [right; now rewrite Hc|].
+  destruct (Ho y Hy) as [He|[_ He]]; [left; assumption|right; left; assumption].
+Qed.
+
+(* ------------------------------------------------------------------ moving a child to the needs-recalc list keeps the core invariants *)
+
+Lemma resched_R_Core f m p c m' :
+  Core m -> parent (m c) = Some p -> resched f m p c LRecalc = Some m' -> Core m'.
+Proof.
+  intros Hc Hpar H. destruct Hc as [Hwf Hk1 Hk4 Hk5 Hk6 Hac Hd].
+  assert (Hns : forall x, parent (m x) <> Some x) by apply (wf_noself _ _ Hwf).
+  assert (Hpc : p <> c) by (intro; subst; now apply (Hns c)).
+  pose proof (resched_scalars f m p c LRecalc m' Hpar Hpc Hns H) as Hsc.
+  assert (Hcr : cur_rel m m') by (eapply resched_cur_rel; eauto; left; reflexivity).
+  constructor.
+  - eapply resched_WFx; eauto; intros [].
+  - eapply resched_R_K1; eauto.
+  - eapply K4_mono; eauto.
+  - eapply resched_K5; eauto.
+  - eapply K6_mono; eauto.
+  - eapply acyc_mono; eauto.
+  - eapply dead_inert_mono; eauto.
+Qed.
+
+Lemma resched_R_K2 f G m p c m' :
+  WF m -> parent (m c) = Some p -> (forall y, y <> c -> K2at G m y) ->
+  resched f m p c LRecalc = Some m' -> K2 G m'.
+Proof.
+  intros Hwf Hpar Hk H.
+  assert (Hns : forall x, parent (m x) <> Some x) by apply (wf_noself _ _ Hwf).
+  assert (Hpc : p <> c) by (intro; subst; now apply (Hns c)).
+  pose proof (resched_scalars f m p c LRecalc m' Hpar Hpc Hns H) as Hsc.
+  assert (Hcr : cur_rel m m') by (eapply resched_cur_rel; eauto; left; reflexivity).
+  apply (K2_mono G m m' c); auto.
+  left. apply (resched_cur f m p c LRecalc m' Hpar Hpc Hns H).
+Qed.
+
+Lemma resched_R_listed f m p c m' :
+  WF m -> parent (m c) = Some p -> listed_except c m ->
+  resched f m p c LRecalc = Some m' -> listed m'.
+Proof.
+  intros Hwf Hpar Hl H.
+  assert (Hns : forall x, parent (m x) <> Some x) by apply (wf_noself _ _ Hwf).
+  assert (Hpc : p <> c) by (intro; subst; now apply (Hns c)).
+  pose proof (resched_scalars f m p c LRecalc m' Hpar Hpc Hns H) as Hsc.
+  destruct (resched_cur f m p c LRecalc m' Hpar Hpc Hns H) as [Hc Ho].
+  intros y q Hq. destruct (Hsc y) as (Hpy&_). rewrite Hpy in Hq.
+  destruct (Nat.eq_dec y c) as [->|Hy]; [rewrite Hc; discriminate|].
+  destruct (Ho y Hy) as [He|[_ He]]; rewrite He; [eapply Hl; eauto|discriminate].
+Qed.
+
+(* scheduled / unscheduled lists never gain members unless something is moved onto them *)
+Lemma resched_su_shrink f : forall m p c w m',
+  parent (m c) = Some p -> p <> c -> (forall x, parent (m x) <> Some x) -> rn w ->
+  resched f m p c w = Some m' ->
+  forall q l y, su l -> In y (get_list (m' q) l) -> In y (get_list (m q) l).
+Proof.
+  induction f as [|f IH]; intros m p c w m' Hpar Hpc Hns Hw H q l y Hl Hin; [discriminate|].
+  rewrite resched_unfold in H.
+  destruct (lst_eqb w (cur (m c)) && negb (lst_eqb (cur (m c)) LSched)).
+  { inversion H; subst. assumption. }
+  cbv zeta in H.
+  destruct Hw as [-> | ->].
+  - set (m2 := unlink m p c LRecalc) in *.
+    assert (Hm3 : exists m3, m' = upd m3 p (set_lr (m3 p) (c :: lr (m3 p))) /\
+                             forall q l y, su l -> In y (get_list (m3 q) l) -> In y (get_list (m2 q) l)).
+    { destruct (parent (m2 p)) as [g|] eqn:Hg.
+      - destruct (resched f m2 g p LRecalc) as [m3|] eqn:Hr; [|discriminate]. inversion H; subst m'.
+        exists m3. split; [reflexivity|]. apply (IH m2 g p LRecalc m3 Hg); auto.
+        + intro; subst g. unfold m2 in Hg. rewrite unlink_parent in Hg by assumption. now apply (Hns p).
+        + intro x. unfold m2. rewrite unlink_parent by assumption. apply Hns.
+        + left; reflexivity.
+      - inversion H; subst m'. exists m2. split; [reflexivity|auto]. }
+    destruct Hm3 as (m3 & -> & Hm3).
+    assert (Hin3 : In y (get_list (m3 q) l)).
+    { destruct (upd_cases m3 p (set_lr (m3 p) (c :: lr (m3 p))) q) as [[-> Hu]|[Hne Hu]]; rewrite Hu in Hin; [|assumption].
+      destruct Hl as [-> | ->]; exact Hin. }
+    apply Hm3 in Hin3; [|assumption]. unfold m2 in Hin3. apply unlink_in in Hin3; tauto.
+  - inversion H; subst. apply unlink_in in Hin; tauto.
 Qed.
